@@ -21,6 +21,8 @@ package clock
 //@             currentTotalUnsuspended - initialTotalUnsuspended > MaxInt64 || currentTotalUnsuspended - initialTotalUnsuspended < MinInt64
 //@   at call close#1 assert lock-released: held(c.lock) == -1
 //@   at call close#2 assert lock-released: held(c.lock) == -1
+//@   at call close#1 assert an-exhausted-budget-is-reported-as-deadline-exceeded: ctx.err == context.DeadlineExceeded
+//@   at call close#2 assert the-end-of-the-base-context-is-reported-with-its-own-reason: ctx.err == uf("ctxerr", baseContext)
 //@ func (*SuspendableClock).NewTimer$1
 //@   props C14 C11
 //@   lockeffect c.lock -1
